@@ -162,13 +162,24 @@ fn check_scaled(before: &ScalableRecipe, after: &ScaledRecipe, factor: f64, src:
 static NO_TRT: std::sync::LazyLock<cooklang::CooklangParser> =
     std::sync::LazyLock::new(|| cooklang::CooklangParser::new(cooklang::Extensions::all() - cooklang::Extensions::TIMER_REQUIRES_TIME, BUNDLED.clone()));
 
+/// no extension at all (bundled units, so that scaled amounts are still fitted): locks, text values and
+/// plain numbers are core syntax
+static NO_EXT: std::sync::LazyLock<cooklang::CooklangParser> = std::sync::LazyLock::new(|| cooklang::CooklangParser::new(cooklang::Extensions::empty(), BUNDLED.clone()));
+
 pub fn oracle(c: &Case, st: &mut Stats) -> Verdict {
     // a fifth of the cases: timers without duration, parsed without TIMER_REQUIRES_TIME
-    let lenient = c.servings % 5 == 0;
+    let lenient = c.raw.ext && c.servings % 5 == 0;
     let m = if lenient { build_ext_with_bare_timers(&c.raw) } else { build(&c.raw, false) };
     let (src, _) = print_recipe(&m, &c.raw.tape);
-    let parser: &cooklang::CooklangParser = if lenient { &NO_TRT } else { &EXTENDED };
+    let parser: &cooklang::CooklangParser = if !c.raw.ext {
+        &NO_EXT
+    } else if lenient {
+        &NO_TRT
+    } else {
+        &EXTENDED
+    };
     st.class_if(lenient, "parsed-without-TIMER_REQUIRES_TIME");
+    st.class_if(!c.raw.ext, "core recipe parsed without extensions");
     let parse = || parser.parse(&src);
     let res = parse();
     if !res.is_valid() {
@@ -309,6 +320,10 @@ pub fn run(tier: Tier) -> i32 {
                         let k = [0u8, 1, 8, 9, 10, 11][(servings % 6) as usize];
                         raw.front_std.insert(0, k);
                         raw.blocks.insert(0, RawBlock::StdMeta(k));
+                    }
+                    // a seventh of the cases: a Core-level recipe, parsed without extensions
+                    if servings % 7 == 3 {
+                        raw.ext = false;
                     }
                     Case { raw, factor_bits: f.to_bits(), servings }
                 })
